@@ -50,14 +50,24 @@ def text_for(rng, hostile, allow_empty=False):
     return gen.plain_text(rng)
 
 
-def gen_graph(rng, n_ns=None, n_nodes=None, hostile=True, closed=True, values_ok=True, features=None):
+def gen_graph(rng, n_ns=None, n_nodes=None, hostile=True, closed=True, values_ok=True, features=None, layered=None):
     """features: dict of switches that keep the graph inside / outside recorded-defect classes"""
     f = {"browse_colon": False, "attr_overflow": False, "empty_ns": False, "no_ua_use": False}
     f.update(features or {})
-    k = n_ns or rng.randint(1, 3)
+    # layered: 3-5 namespaces of which only some pairs are linked, so that a namespace uses a later one but not an earlier one
+    if layered is None:
+        layered = n_ns is None and rng.random() < 0.35
+    k = n_ns or (rng.randint(3, 5) if layered else rng.randint(1, 3))
     uris = ["http://%s.example/%s" % (rng.choice("abcdefg"), gen.plain_text(rng, 1).lower()) + str(i) for i in range(k)]
     if hostile and rng.random() < 0.3:
         uris[rng.randrange(k)] += "?a=1&b=<2>"
+    link = {frozenset((a, b)) for a in uris for b in uris if a < b and (not layered or rng.random() < 0.4)}
+
+    def linked(a, b):
+        return a == b or a == UA or b == UA or frozenset((a, b)) in link
+
+    def vis(u, pool):
+        return [x for x in pool if linked(x[0], u)]
     nodes = {}
     order = []
     for u in uris:
@@ -73,7 +83,7 @@ def gen_graph(rng, n_ns=None, n_nodes=None, hostile=True, closed=True, values_ok
                 name = name.replace(":", ";")
             if name == "":
                 name = "n"
-            n = {"id": key, "cls": cls, "browse_ns": rng.choice([u, u, u, UA] + uris), "browse": name,
+            n = {"id": key, "cls": cls, "browse_ns": rng.choice([u, u, u, UA] + [x for x in uris if linked(x, u)]), "browse": name,
                  "display": text_for(rng, hostile, allow_empty=True), "description": text_for(rng, hostile, allow_empty=True) if rng.random() < 0.5 else "",
                  "attrs": {}, "value": None}
             nodes[key] = n
@@ -88,7 +98,7 @@ def gen_graph(rng, n_ns=None, n_nodes=None, hostile=True, closed=True, values_ok
                 if a == "DataType":
                     continue
                 if a in ("ParentNodeId", "MethodDeclarationId"):
-                    n["attrs"][a] = rng.choice(keys + base_targets) if closed else rng.choice(keys + base_targets + [(n["id"][0], "i", "999999")])
+                    n["attrs"][a] = rng.choice(vis(key[0], keys) + base_targets) if closed else rng.choice(keys + base_targets + [(n["id"][0], "i", "999999")])
                 elif a in ("IsAbstract", "Symmetric", "Historizing"):
                     n["attrs"][a] = rng.choice(["true", "false"])
                 elif a == "ValueRank":
@@ -114,7 +124,7 @@ def gen_graph(rng, n_ns=None, n_nodes=None, hostile=True, closed=True, values_ok
                 if v["t"] == "ListOf":
                     n["attrs"]["ValueRank"] = "1"
             elif rng.random() < 0.6:
-                n["attrs"]["DataType"] = rng.choice(dtypes + [BASE(6), BASE(12), BASE(11)]) if dtypes else BASE(rng.choice([6, 11, 12]))
+                n["attrs"]["DataType"] = rng.choice(vis(key[0], dtypes) + [BASE(6), BASE(12), BASE(11)])
     # references
     refs = []
     custom_types = [k_ for k_ in keys if nodes[k_]["cls"] == "UAReferenceType"]
@@ -123,7 +133,7 @@ def gen_graph(rng, n_ns=None, n_nodes=None, hostile=True, closed=True, values_ok
         n = nodes[key]
         # every node hangs somewhere so that graphs are realistic
         if n["cls"] in ("UAObject", "UAVariable", "UAMethod", "UAView"):
-            parent = rng.choice([k_ for k_ in keys if k_ != key] + [BASE(85)])
+            parent = rng.choice([k_ for k_ in vis(key[0], keys) if k_ != key] + [BASE(85)])
             refs.append((parent, key, BASE(rng.choice([47, 35, 46]))))
             tdef = BASE(61) if n["cls"] == "UAObject" else BASE(63)
             if n["cls"] in ("UAObject", "UAVariable"):
@@ -135,12 +145,12 @@ def gen_graph(rng, n_ns=None, n_nodes=None, hostile=True, closed=True, values_ok
             refs.append((BASE(sup), key, BASE(45)))
     for _ in range(rng.randint(0, 2 * len(keys))):
         a = rng.choice(keys)
-        b = rng.choice(keys + base_targets)
+        b = rng.choice(vis(a[0], keys) + base_targets)
         if not closed and rng.random() < 0.15:
             b = (rng.choice(uris + ["http://nowhere.example/x"]), "i", str(rng.randint(7000, 7999)))
         if a == b and rng.random() < 0.5:
             continue
-        refs.append((a, b, rng.choice(tpool)))
+        refs.append((a, b, rng.choice([t_ for t_ in tpool if linked(t_[0], a[0]) and linked(t_[0], b[0])])))
     refs = list(dict.fromkeys(refs))
     if f["no_ua_use"]:
         pass
